@@ -1,7 +1,8 @@
 (* C12 — the hypotheses of the theorems are satisfiable, and the functions do what the comments say
    on small inputs (vm_compute). *)
 From Verif.Base Require Import Tactics.
-From Verif.C12 Require Import Model Proofs Proofs2 Proofs3.
+From Verif.C12 Require Import Model Proofs Proofs2 Proofs3 Proofs4.
+From Verif.C13 Require Extracted Model.
 Local Open Scope N_scope.
 
 Definition f (a mt tag : N) (c : list N) := Node a KFile mt tag c [].
@@ -101,3 +102,27 @@ Example merge_loop_sorted_agrees :
   merge_loop cmp_mtime [t1; t2] = merge cmp_mtime sched_id [t1; t2] /\
   merge_loop cmp_mtime [t2; t1] = merge cmp_mtime sched_id [t2; t1].
 Proof. vm_compute. split; reflexivity. Qed.
+
+(* copy_closed: a complete run of the C13 pipeline for the two blobs copy needs here (one data blob, the
+   root tree): data through its packer, then the tree through the other one, both ending indexed *)
+Module X13 := Verif.C13.Model.
+Definition t5 : tree := [f 1 5 11 [3]].
+Definition ex_run : list X13.ev :=
+  [X13.Send X13.Data 3; X13.Adv X13.Data 0; X13.Adv X13.Data 0; X13.Adv X13.Data 0; X13.Adv X13.Data 0; X13.Adv X13.Data 0;
+   X13.Flush X13.Data; X13.WriteP X13.Data; X13.IndexP X13.Data;
+   X13.Send X13.Tree 1; X13.Adv X13.Tree 0; X13.Adv X13.Tree 0; X13.Adv X13.Tree 0; X13.Adv X13.Tree 0; X13.Adv X13.Tree 0;
+   X13.Flush X13.Tree; X13.WriteP X13.Tree; X13.IndexP X13.Tree].
+Example copy_closed_hypotheses :
+  needed ex_tid (reach ex_tid t5) [] [t5] = [(Tree, 1); (Data, 3)] /\
+  exists s, X13.run X13.init ex_run = Some s /\ X13.final s = true /\
+            (forall b, In b (needed ex_tid (reach ex_tid t5) [] [t5]) -> In (conv b) (X13.requested s)) /\
+            indexed_blobs s = [(Data, 3); (Tree, 1)].
+Proof.
+  split; [vm_compute; reflexivity|]. eexists. split; [vm_compute; reflexivity|]. split; [vm_compute; reflexivity|].
+  split; [|vm_compute; reflexivity]. intros b Hb. vm_compute in Hb. vm_compute. destruct Hb as [<-|[<-|[]]]; auto.
+Qed.
+
+(* merge_loop_paths / merge_loop_sorted: the loop over the simple priority queue on the example inputs *)
+Example merge_loop_simple_pq :
+  merge_loop_gen cmp_mtime (fun h x => x :: h) Proofs4.pop_min [t1; t2] = merge cmp_mtime sched_id [t1; t2].
+Proof. vm_compute. reflexivity. Qed.
